@@ -1751,6 +1751,16 @@ func (ex *Exec) chanSend(st *State, ch, v *Val, pos token.Pos) {
 			arr := ex.readLoc(st, la)
 			ex.writeLoc(st, la, ex.storeVal(arr, n.S, v))
 		}
+		// a struct value: each scalar field f is logged in ghost sent_f(ch, n) when that ghost is declared
+		if v.Sh != nil && !v.Sh.IsLeaf() && v.Sh.Kind == "struct" {
+			for i, name := range v.Sh.Names {
+				if gf, ok := ex.eng.cs.Ghosts["sent_"+name]; ok && i < len(v.Kids) && v.Kids[i].Sh != nil && v.Kids[i].Sh.IsLeaf() {
+					la := ex.ghostLoc(gf, []*Val{ch, n})
+					arr := ex.readLoc(st, la)
+					ex.writeLoc(st, la, ex.storeVal(arr, n.S, v.Kids[i]))
+				}
+			}
+		}
 		ex.writeLoc(st, loc, ex.intVal("(+ "+n.S+" 1)", types.Typ[types.Int]))
 	}
 }
